@@ -26,6 +26,15 @@ def run(tier, seed):
                              extras=("none", "free", "freep", "clr"), xkinds=("r", "w"), script_until=3)
     SF = lambda D: bc.consts("sock", LIFE | {"shut"}, D, sizes=(1, 2), drains=(0, 99), wms=((0, 0),), durs=(0,),
                              extras=("none", "free", "clr", "w1"), xkinds=("r", "w", "e"), script_until=3)
+    DIRA = {"write", "enable", "loop", "connect", "shut", "trig", "script", "free", "clr"}
+    # directed: deferred connect whose peer already sent / hung up when the client's loop first runs, and two
+    # trigger_event(DEFER) calls before one loop (several event conditions coalesce into one deferred run: none is lost)
+    CDEF = dict(name="C19_conn_deferred", scripts=bc.conn_deferred_family(),
+                consts=bc.consts("sock", DIRA, 9, sizes=(1, 2), wms=((0, 0),), durs=(0,), drains=(0, 99), conn="ok", defer=True))
+    # directed: refused connect, then the application re-arms writing: no CONNECTED, one ERROR|WRITING
+    CREF = lambda d: dict(name="C19_refused_rearm_" + ("def" if d else "imm"), scripts=bc.conn_refused_family(),
+                          consts=bc.consts("sock", DIRA, 9, sizes=(1, 2), wms=((0, 0),), durs=(0,), drains=(0, 99),
+                                           conn="refused", defer=d))
     quick_gen = [
         # every 5-step history of connect / enable / write / loop on a connecting socket (immediate callbacks): the bounded
         # model check of the quick tier (every 4th history is replayed); the histories that meet the known finding's trigger are its canonical scenarios
@@ -33,6 +42,7 @@ def run(tier, seed):
         dict(name="C19_conn_refused_" + ("def" if df else "imm"), consts=C("refused", df, 6), simulate=12),
         dict(name="C19_pair_free", consts=PF(9), simulate=40),
         dict(name="C19_sock_free", consts=SF(9), simulate=20) if seed % 2 else dict(name="C19_filt_free", consts=FF(9), simulate=20),
+        CDEF, CREF(df),
     ]
     plan = {
         "mc": [] if q else [("C19_mc_pair", bc.consts("pair", LIFE | {"flush", "finish"}, 5, sizes=(1,), drains=(0, 99), wms=((0, 0),),
@@ -45,6 +55,7 @@ def run(tier, seed):
             dict(name="C19_pair_free", consts=PF(12), simulate=400),
             dict(name="C19_filt_free", consts=FF(12), simulate=200),
             dict(name="C19_sock_free", consts=SF(12), simulate=300),
+            CDEF, CREF(False), CREF(True),
         ],
         "known": [] if q else [known],
         "monitor_by_kind": {k: bc.mon_c19(k) for k in ("pair", "filt", "sock")},
